@@ -47,7 +47,7 @@ DEFAULT_RLIMIT = 150
 STRONG_SPEC = {"max", "min", "saturating_sub", "saturating_add", "checked_sub", "checked_add", "wrapping_sub", "wrapping_add",
                "len", "is_empty", "push", "extend_from_slice", "contains_key", "contains", "insert", "is_some", "is_none",
                "is_ok", "is_err", "unwrap_or", "Some", "Ok", "Err", "None", "if", "match", "let", "return", "for", "while",
-               "usize::from", "u64::from", "u32::from", "u16::from", "u128::from"}
+               "usize::from", "u64::from", "u32::from", "u16::from", "u128::from", "Vec::from", "to_vec"}
 
 OFFLINE_ENV = {"CARGO_NET_OFFLINE": "true"}
 
@@ -325,7 +325,10 @@ def run_verus_unit(unit, repo, want_canary=True):
             res_out = cst == "undecided" and cfails and cfails[0].get("kind") == "resource" and \
                 re.search(r"rlimit[^\n]*\n\s*-->[^\n]*\n[^\n]*\n[^\n]*\b%s\b" % re.escape(n), cinfo["stderr"])
             hit = any(ff == n or (ff or "").endswith("::" + n) for ff in failed_fns)
-            if not (cst == "logical" and hit) and not res_out:
+            # the inserted `false` (the only one in the file) reported as a failed postcondition is a refusal even if
+            # another part of the same function ran out of the canary's small resource budget in the same run
+            false_refused = re.search(r"error: postcondition not satisfied\n\s*-->[^\n]*\n[^\n]*\n\s*\d+\s*\|\s*ensures false,", cinfo["stderr"])
+            if not (cst == "logical" and hit) and not res_out and not false_refused:
                 bad.append("%s(%s)" % (n, cst))
         res["canary"] = "fails-as-required x%d" % len(names) if not bad else "VACUOUS %s" % bad
         if bad:
@@ -959,8 +962,10 @@ def finish(prop, tier, seed, units, results, ledger, findings, fixed, pmeta, arg
     unit_ids = set(u["id"] for u in load_registry().get("unit", []) if prop in u.get("props", []))
     known_printed = [f for f in findings if f.get("property") == prop]
     mine = set(f.get("obligation") for f in known_printed)
-    known_printed += [f for f in findings if f.get("property") != prop and f.get("obligation") in unit_ids and f.get("obligation") not in mine
-                      and not mine.add(f.get("obligation"))]
+    # a finding recorded under another property is repeated here only if it is the WHOLE obligation (no block=) of a unit
+    # this property shares: that obligation fails on the unchanged tree and must be explained, not counted
+    known_printed += [f for f in findings if f.get("property") != prop and f.get("obligation") in unit_ids and not f.get("block")
+                      and f.get("obligation") not in mine and not mine.add(f.get("obligation"))]
     trusted = list(load_registry().get("trusted_base", {}).get("items", []))
     ev = {
         "property_id": prop, "tier": tier, "seed": seed, "level": "proof",
